@@ -444,6 +444,11 @@ func rpcRefreshContract(ctx context.Context, t TransportClient, tp TxPool, signe
 	} else if !existing.HostPublicKey.VerifyHash(contractSigHash, hostRenewal.NewContract.HostSignature) {
 		signer.ReleaseInputs([]types.V2Transaction{renewalTxn})
 		return RPCRefreshContractResult{}, clientErrf("invalid host contract signature")
+	} else if cs.ContractSigHash(hostRenewal.NewContract) != contractSigHash || hostRenewal.NewContract.RenterSignature != renewal.NewContract.RenterSignature {
+		// the signatures above were checked against the contract built locally;
+		// the contract the host sent back must be that same contract
+		signer.ReleaseInputs([]types.V2Transaction{renewalTxn})
+		return RPCRefreshContractResult{}, clientErrf("host returned a different contract")
 	}
 	return RPCRefreshContractResult{
 		Contract: ContractRevision{
@@ -1307,6 +1312,11 @@ func RPCRenewContract(ctx context.Context, t TransportClient, tp TxPool, signer 
 	} else if !existing.HostPublicKey.VerifyHash(contractSigHash, hostRenewal.NewContract.HostSignature) {
 		signer.ReleaseInputs([]types.V2Transaction{renewalTxn})
 		return RPCRenewContractResult{}, clientErrf("invalid host contract signature")
+	} else if cs.ContractSigHash(hostRenewal.NewContract) != contractSigHash || hostRenewal.NewContract.RenterSignature != renewal.NewContract.RenterSignature {
+		// the signatures above were checked against the contract built locally;
+		// the contract the host sent back must be that same contract
+		signer.ReleaseInputs([]types.V2Transaction{renewalTxn})
+		return RPCRenewContractResult{}, clientErrf("host returned a different contract")
 	}
 	return RPCRenewContractResult{
 		Contract: ContractRevision{
